@@ -136,7 +136,7 @@ def rule_key_derivation(report, prog):
             a, b = _eval_key(pe, pw), _eval_key(ae, pw)
             if a != b:
                 diffs.append((pw if isinstance(pw, str) else pw[:6], a, b))
-        report.check(not diffs, 'C20-R3', key(name, 'protect and authenticate derive the same key from a password', pe, ae), pf.loc(),
+        report.check(not diffs, 'C20-R3', key(name, 'protect and authenticate derive the same key from a password'), pf.loc(),
                      '%s: protect derives the key with `%s`, authenticate with `%s`; for the same password they give different results '
                      '(password, protect, authenticate): %s -- protect(p) followed by authenticate(p) cannot both work'
                      % (name, norm(pe), norm(ae), [(repr(d[0]), d[1][0] if d[1][0] == 'raises' else 'key', d[2][0] if d[2][0] == 'raises' else 'key') for d in diffs][:3]),
